@@ -45,8 +45,8 @@ func runC19(c *Ctx) {
 	hdr := pkC.Types.Scope().Lookup("AuthenticationHeader")
 	// (1) references of the constant + literal "Authorization" in Header.Set/Add calls
 	allowedForward := map[string]string{
-		"private/buf/bufcurl":        "buf curl forwards headers the user typed on the command line",
-		"private/buf/bufstudioagent": "studio agent forwards the browser's headers to the target the user chose",
+		"private/buf/bufcurl":              "buf curl forwards headers the user typed on the command line",
+		"private/buf/bufstudioagent":       "studio agent forwards the browser's headers to the target the user chose",
 		"private/buf/cmd/buf/command/curl": "buf curl: user-supplied headers / reflection credentials chosen by the user",
 	}
 	refs := 0
